@@ -54,6 +54,7 @@ func main() {
 	if *tier == "thorough" {
 		opts.budgetS = 30
 		opts.twins = true
+		opts.allAgree = true
 	}
 	switch cmd {
 	case "synth":
@@ -131,7 +132,7 @@ func printFnResult(r *fnResult, verbose bool) int {
 	}
 	n, d := 0, 0
 	for _, o := range r.Obls {
-		if o.Kind == "cover" {
+		if o.Kind == "cover" || o.Kind == "path-cover" {
 			if o.Status == "vacuous" {
 				bad++
 			}
